@@ -421,3 +421,44 @@ ASSUMPTIONS = [
     "a tracker's task that cancels its own handle (reset() called from _start_init) still finishes the statement it is in (no await follows)",
     "RemoteValue.read_state sends one GroupValueRead for the state address and waits for the answer (ValueReader, C-numbered elsewhere: not part of this claim)",
 ]
+
+
+# ------------------------------------------------------------------ what 'a state update' is: every accepted telegram
+
+from xknx.dpt import DPTBinary  # noqa: E402
+from xknx.telegram import Telegram, TelegramDirection  # noqa: E402
+from xknx.telegram.apci import GroupValueResponse, GroupValueWrite  # noqa: E402
+
+
+class RecUpdates(RecUpdater):
+    def update_received(self, rv):
+        ghost("W").append("update")
+
+
+RV_STATE = Obj(
+    RemoteValueSwitch,
+    xknx=Obj(World, state_updater=Const(RecUpdates())),
+    group_address=None,
+    group_address_state=Obj(GroupAddress, raw=1),
+    passive_group_addresses=Const([]),
+    device_name="d",
+    feature_name="f",
+    _value=Choice(None, True, False),
+    _payload=None,
+    telegram=None,
+    after_update_cb=None,
+    _sync_state=True,
+    invert=False,
+)
+
+
+@lemma("C35", params=dict(rv=RV_STATE, bit=Int(0, 1), response=Bool(), always=Bool()))
+def every_accepted_state_telegram_restarts_the_expire_timer(rv, bit, response, always):
+    """RemoteValue.process: every telegram for the value that decodes - a write or a response, also one
+    that repeats the value already stored - is reported to the state updater exactly once ('a full interval
+    without a state update' counts telegrams, not value changes)."""
+    payload = (GroupValueResponse if response else GroupValueWrite)(DPTBinary(bit))
+    t = Telegram(destination_address=GroupAddress(1), direction=TelegramDirection.INCOMING, payload=payload)
+    assert rv.process(t, always_callback=always)
+    assert ghost("W") == ["update"]
+    assert rv.value == bool(bit)
